@@ -71,9 +71,13 @@ func concretiseAttestations(r *Replay) string {
 	pfx := r.Probes["shape/attesters"]
 	nAtt, _ := probeInt(r, "shape/n")
 	maxT, _ := probeInt(r, "shape/maxT")
-	msg, err := hex.DecodeString(r.Values[msgName])
-	if err != nil {
-		return "bad message hex"
+	var msg []byte
+	if v := r.Values[msgName]; v != "nil" {
+		var err error
+		msg, err = hex.DecodeString(v)
+		if err != nil {
+			return "bad message hex"
+		}
 	}
 	var att []byte
 	if v := r.Values[attName]; v != "nil" {
